@@ -16,7 +16,7 @@ pub fn def() -> CheckDef {
         meta: CheckMeta {
             id: "C03",
             level: "exploration",
-            rule: "generated single-threaded step sequences over {open reader (<= 4 open), close reader j (any order), writer commit(ops), writer rollback(ops), reopen (only with no reader open)} with update/delete-heavy operations on a bounded key set at page size 1024, so pages are freed and reused at every commit, and bursts that rewrite ~40 page-sized values so that the free set is drained and any page released too early is overwritten at once. Each reader keeps the model clone taken when it began; after EVERY step every open reader is dumped in full and compared with its clone (a panic is a failure); commits are also checked with the independent parser. The file is pre-sized so that no commit grows it while a reader is open on the same thread (documented self-deadlock); cases that would come near the limit are discarded and counted. Non-trivial = a reader that stayed open across >= 2 commits of which at least one reused previously freed pages, while another reader of a different age was open. Distinct = hash of the case.",
+            rule: "generated single-threaded step sequences over {open reader (<= 4 open), close reader j (any order), writer commit(ops), writer rollback(ops), each optionally with 1-2 readers begun while the writer is open, reopen (only with no reader open)} with update/delete-heavy operations on a bounded key set at page size 1024, so pages are freed and reused at every commit, and bursts that rewrite ~40 page-sized values so that the free set is drained and any page released too early is overwritten at once. Each reader keeps the model clone taken when it began; after EVERY step every open reader is dumped in full and compared with its clone (a panic is a failure); commits are also checked with the independent parser. The file is pre-sized so that no commit grows it while a reader is open on the same thread (documented self-deadlock); cases that would come near the limit are discarded and counted. Non-trivial = a reader that stayed open across >= 2 commits of which at least one reused previously freed pages, while another reader of a different age was open. Distinct = hash of the case.",
             assumptions: &[
                 "one thread holds several read transactions and at most one write transaction at a time; the writer never needs to grow the file (pre-sized), which is the documented precondition for doing this on one thread",
             ],
@@ -30,7 +30,14 @@ pub fn def() -> CheckDef {
 pub enum Step {
     OpenReader,
     CloseReader(u8),
-    Write { commit: bool, ops: Vec<Op> },
+    Write {
+        commit: bool,
+        ops: Vec<Op>,
+        /// readers opened while this write transaction is open (after its operations, before
+        /// its commit or rollback); their snapshot is the state before the transaction
+        #[serde(default)]
+        inside: u8,
+    },
     Reopen,
 }
 
@@ -60,16 +67,18 @@ fn small_ops(max: usize) -> impl Strategy<Value = Vec<Op>> {
 pub fn strategy(max_steps: usize, num_pages: usize) -> impl Strategy<Value = C03Case> {
     // a burst rewrites ~40 page-sized values: it drains the free set, so that a page released too
     // early is overwritten at once instead of sitting unused behind lower free page ids
-    let burst = (0u16..3, any::<u16>()).prop_map(|(slot, b)| Step::Write {
+    let inside = || prop_oneof![7 => Just(0u8), 2 => Just(1u8), 1 => Just(2u8)];
+    let burst = (0u16..3, any::<u16>(), inside()).prop_map(|(slot, b, inside)| Step::Write {
         commit: true,
         ops: vec![Op::PutRun { b, base: vec![b'z'], start: slot * 20, step: 1, n: 39, klen: 0, vlen: 1000 }],
+        inside,
     });
     let step = prop_oneof![
         3 => Just(Step::OpenReader),
         2 => any::<u8>().prop_map(Step::CloseReader),
         3 => burst,
-        6 => small_ops(12).prop_map(|ops| Step::Write { commit: true, ops }),
-        1 => small_ops(12).prop_map(|ops| Step::Write { commit: false, ops }),
+        6 => (small_ops(12), inside()).prop_map(|(ops, inside)| Step::Write { commit: true, ops, inside }),
+        1 => (small_ops(12), inside()).prop_map(|(ops, inside)| Step::Write { commit: false, ops, inside }),
         1 => Just(Step::Reopen),
     ];
     (small_ops(10), prop::collection::vec(step, 2..max_steps)).prop_map(move |(mut setup, steps)| {
@@ -94,6 +103,7 @@ pub struct C03Stats {
     pub dumps: u64,
     pub discarded: bool,
     pub reopen: u64,
+    pub begun_inside_writer: u64,
 }
 
 fn read_prefix(path: &std::path::Path, ps: u64) -> Result<Vec<u8>, Failure> {
@@ -172,11 +182,34 @@ pub fn run_case(case: &C03Case, path: &std::path::Path, st: &mut C03Stats) -> Re
                             drop(r);
                         }
                     }
-                    Step::Write { commit, ops } => {
+                    Step::Write { commit, ops, inside } => {
                         let mut work = model.clone();
                         let spec = TxSpec { kind: if *commit { TxKind::Commit } else { TxKind::Rollback }, ops: ops.clone() };
                         let mut at = None;
-                        let committed = run_tx(dbr, &spec, false, &mut work, &opts, &mut cs, &mut at, None).map_err(|f| f.at(step_i, at))?;
+                        // readers that begin while the writer is open: they see the state before it
+                        let before = model.clone();
+                        let born_before = st.commits;
+                        let room = 4usize.saturating_sub(readers.len());
+                        let mut begun: Vec<Tx> = Vec::new();
+                        let mut hook = |_: &mut TxCtx, _: &MBucket| -> Result<(), Failure> {
+                            for _ in 0..(*inside as usize).min(room) {
+                                begun.push(dbr.tx(false).map_err(|e| Failure::new("tx_err", e.to_string()))?);
+                            }
+                            Ok(())
+                        };
+                        let committed = run_tx(dbr, &spec, false, &mut work, &opts, &mut cs, &mut at, if *inside > 0 { Some(&mut hook) } else { None }).map_err(|f| f.at(step_i, at))?;
+                        for tx in begun {
+                            st.readers_opened += 1;
+                            st.begun_inside_writer += 1;
+                            let other_age = readers.iter().any(|r| r.born != born_before);
+                            for r in readers.iter_mut() {
+                                if r.born != born_before {
+                                    r.overlapped_other_age = true;
+                                }
+                            }
+                            readers.push(Reader { tx, snap: before.clone(), commits_seen: 0, reuse_seen: 0, born: born_before, overlapped_other_age: other_age });
+                            st.max_open = st.max_open.max(readers.len());
+                        }
                         if committed {
                             model = work;
                             st.commits += 1;
@@ -266,6 +299,9 @@ fn shard(ctx: &ShardCtx, known: &Known) -> ShardOut {
         let mut classes = vec![format!("max open readers {}", st.max_open)];
         if st.reuse_commits > 0 {
             classes.push("commit reused freed pages".into());
+        }
+        if st.begun_inside_writer > 0 {
+            classes.push("reader begun while a write transaction was open".into());
         }
         if st.reopen > 0 {
             classes.push("reopen".into());
